@@ -19,7 +19,11 @@ def shape_file(shape, bsz, nblocks):
     size = 0
     i = 0
     while size < bsz * nblocks:
-        if shape == "multiblock" and i % 50 == 49:
+        if shape == "yy2":
+            # the one built-in notation with a two-digit year (opentftp): `[22-Feb-17 21:24:20] ...`
+            y, mo, d, h, mi, sec = gen.civil(E + 17 * 365 * 86400 + i)
+            ln = b"[%02d-%s-%02d %02d:%02d:%02d] client 10.0.0.%d request %d\n" % (d, [b"Jan", b"Feb", b"Mar", b"Apr", b"May", b"Jun", b"Jul", b"Aug", b"Sep", b"Oct", b"Nov", b"Dec"][mo - 1], y % 100, h, mi, sec, i % 250, i)
+        elif shape == "multiblock" and i % 50 == 49:
             ln = gen.ts0(1000 * (E + i)) + b" " + b"m" * (3 * bsz + bsz // 2 - 24) + b"\n"
         else:
             ln = gen.ts0(1000 * (E + i)) + b" " + b"m" * (14 + i % 5) + b"\n"
@@ -37,7 +41,7 @@ def cli_leg(res, tier):
     try:
         bsz = 1024
         sizes = [32, 256, 1024] if tier == "quick" else [32, 256, 1024, 4096]
-        for shape in ("short", "multiblock"):
+        for shape in ("short", "multiblock", "yy2"):
             for cont in ("plain", "gz", "bz2", "lz4"):
                 base = None
                 for nb in sizes:
